@@ -36,7 +36,7 @@ def run(tier, replay=None):
         can = json.loads(json.dumps(next(r for r in recs if r['haslst'] and len(r['lst']) > 2))); can['id'] = 'canary'
         can['lst'][-1]['off'] += 1
         verd = asmlib.validate(recs + [can], d, "c17v")
-        if verd[-1]['listing'] == "":
+        if verd[-1]['listing'] == "" or verd[-1]['decode'] == "":
             raise vlib.MachineryError("canary listing accepted: binding is not live")
         ok = 0; nlines = 0
         for cid, rec, note, v in zip(ids, recs, notes, verd[:-1]):
@@ -44,8 +44,13 @@ def run(tier, replay=None):
                 chk.violation("listing:%s:%s" % (family(cid), re.sub(r'\d+', 'N', note)), "listing of %s: %s" % (cid, note),
                               {"record.json": json.dumps(rec)})
                 continue
+            # two independent judgements: the listing decoded on its own terms (the property as stated), and the listing
+            # against the walk of the binary along the SOURCE directives (a walk failure there is C05's business)
+            if v['decode'] != "":
+                chk.violation("listing:%s:%s" % (family(cid), re.sub(r'\d+', 'N', v['decode'])),
+                              "listing of %s: %s" % (cid, v['decode']), {"record.json": json.dumps(rec)})
+                continue
             if v['listing'] == "" or v['listing'].startswith("walk:"):
-                # a walk failure means the binary itself is wrong: C05's business, not the listing's
                 if v['listing'] == "":
                     ok += 1; nlines += len(rec['lst'])
                 continue
